@@ -29,9 +29,10 @@ def main(argv=None):
         mod = importlib.import_module(f"bvstatic.rules.{prop.lower()}")
         chk = Check(prop, args.tier, Repo(args.repo) if args.repo else Repo(), only=only)
         mod.run(chk)
-        from .rules.common import pins_rule, signature_rule
+        from .rules.common import anchors_rule, pins_rule, signature_rule
         chk.guard(signature_rule, chk)
         chk.guard(pins_rule, chk)
+        chk.guard(anchors_rule, chk)
         from .ownership import memo_rule
         from .rules.common import anchored_files
         chk.guard(memo_rule, chk, anchored_files().get(prop, []))
